@@ -884,6 +884,7 @@ fn main() {
             // two wide widths with odd limb counts (17 and 33 limbs): few histories, the ordering
             // and equality invariants run over long limb arrays
             reg_pair!(jobs, 250; (1088, 64), (2112, 65));
+            reg_pair!(jobs, 60; (4160, 64), (8256, 65));
             reg_pair!(jobs, 4000; (0, 65), (128, 0), (1, 64), (7, 8), (31, 32), (63, 64), (64, 63), (65, 128), (127, 128), (128, 129), (129, 64), (190, 255), (255, 256), (256, 257), (320, 63), (535, 60));
         },
         |_| Map::new(),
